@@ -24,7 +24,7 @@ def examples(tier):
 
 
 def strategy(tier):
-    return gen_store.case(CLASSES, WEIGHTS, max_ops=40)
+    return gen_store.case(CLASSES, WEIGHTS, max_ops=40, macros=4, extra=6)
 
 
 shrink_candidates = gen_store.shrink_candidates
